@@ -12,8 +12,9 @@ import (
 
 func TestVerif(t *testing.T) {
 	vsim.Main(t, map[string]vsim.Scenario{
-		"C14": scenC14,
-		"C15": scenC15,
-		"C16": scenC16,
+		"C14":  scenC14,
+		"C15":  scenC15,
+		"C16":  scenC16,
+		"C16P": scenC16P,
 	})
 }
